@@ -759,6 +759,21 @@ def locate_arm(sf, fn_item, state_pat, ch_pat, what):
     if st is None:
         raise LostAnchor(f"{what}: state arm {state_pat} not found")
     bl, bh, st_is_block = st
+    if ch_pat.strip() == "*":
+        # STATE SLICING: the whole block of the state arm is the body of the synthetic method
+        if not st_is_block:
+            raise UnitSyntaxError(f"{what}: state arm {state_pat} is not a block")
+        outer_close = pair[j]
+        after = sf.text[toks[outer_close + 1].start:toks[fn_item.body_close - 1].end] if fn_item.body_close - 1 > outer_close else ""
+        q = fn_item.tok_lo
+        while toks[q].text != "fn":
+            q += 1
+        popen = q + 2
+        params = sf.text[toks[popen + 1].start:toks[pair[popen] - 1].end]
+        a = pair[popen] + 1
+        ret = sf.text[toks[a + 1].start:toks[fn_item.body_open - 1].end] if toks[a].text == "->" else "()"
+        fake = rustlex.Item("fn", "arm", toks[bl].start, toks[bh].end, toks[bl].start, bl, bh + 1, bl, bh, "")
+        return dict(item=fake, pre="", pre_line=0, tail=after.strip(), tail_line=sf.line_of(toks[outer_close].end), params=params, ret=ret)
     # inner: first `match ch {` inside the state arm (at any nesting depth, e.g. inside `return { .. match ch {..} };`)
     k = bl if not st_is_block else bl + 1
     inner = None
@@ -1365,6 +1380,7 @@ def strip_vis(text):
 HEADER = """// GENERATED by /verif/vx/extract.py from /repo's working tree -- do not edit.
 #![allow(unused_imports, unused_variables, unused_mut, dead_code, unused_assignments, unused_parens, non_snake_case, non_upper_case_globals, unreachable_code, unused_braces)]
 use vstd::prelude::*;
+use std::collections::HashMap;
 verus! {
 """
 FOOTER = """
